@@ -79,31 +79,8 @@ def ofTrace (t : STrace) : Sexp :=
   .list [ofList ofEv t.log, ofList ofSinkEntry t.sink, ofResult t.result, ofList ofNat t.spawned, ofList ofNat t.joined,
          ofList ofNat t.liveAtReturn, ofList ofNat t.runs, ofList ofBool t.flags, ofList ofBool t.died, ofBool t.finished]
 
-/-- known finding: in the stream flavour a worker that is told to stop before it has forwarded its
-`startTestRun` clears the request (`ExtendedToStreamDecorator.startTestRun` assigns `shouldStop = False`) -/
-def classes (i : SInput) : List String :=
-  if (finalC i).late.isEmpty then [] else ["lostStop"]
-
 def drv : PropDrv SInput STrace :=
-  { decI := input?, decT := trace?, encT := ofTrace, model := modelC, clauses := Spec.C13.clauses, classes := classes }
+  { decI := input?, decT := trace?, encT := ofTrace, model := modelC, clauses := Spec.C13.clauses }
 
-/-- As `PropDrv.handle`, except for the third component (spec on the MODEL's own trace): on an input of
-the finding class `lostStop` the model exhibits the defect faithfully, so its trace fails the `abort`
-clause as well; that clause is excused there (the headline theorem is `holds_model_partial`: outside the
-class every clause holds, inside it every clause but `abort`).  harness/check.py treats any spec failure on
-the model trace as an infrastructure error, hence the filter. -/
-def handle : List Sexp → Sexp
-  | [inp, impl] =>
-    match input? inp with
-    | none => .atom "bad-input"
-    | some i =>
-      let m := modelC i
-      let cls := classes i
-      let enc (fs : List String) : Sexp := if fs.isEmpty then .atom "ok" else Sexp.tag "fail" (fs.map .atom)
-      let si := match trace? impl with
-        | none => Sexp.tag "fail" [.atom "undecodable-trace"]
-        | some t => enc (drv.failed i t)
-      let sm := (drv.failed i m).filter fun c => !(cls.contains "lostStop" && c == "abort")
-      .list [ofTrace m, si, enc sm, .list (cls.map .atom)]
-  | args => drv.handle args
+def handle : List Sexp → Sexp := drv.handle
 end TTV.Drv.C13
